@@ -394,6 +394,20 @@ def gen(rng, tier):
         yield from gen_curve(c, rng, tier, pool, 40 if thorough else 3, False)
 
 
+def extra(ctx, cases, lines, impl_out, model_out):
+    """the cached constants are the current ones: shipped.json = `c04 dump`, GlvShipped.v = its GLV part"""
+    out = []
+    rc, dump = ctx['sh']([ctx['hbin_path'], 'dump'], timeout=300)
+    if rc != 0 or dump.strip() != open(HERE + '/shipped.json').read().strip():
+        out.append(({'case': {'op': 'sw_params', 'args': [], 'class': 'stale/shipped.json'}, 'line': '',
+                     'why': 'props/C04/shipped.json differs from `c04 dump` (a shipped constant changed): regenerate it and coq/C04/GlvShipped.v'}, 'stale'))
+    import gen_glv_shipped
+    if gen_glv_shipped.text() != open(ctx['COQ'] + '/C04/GlvShipped.v').read():
+        out.append(({'case': {'op': 'sw_glv_params', 'args': [], 'class': 'stale/GlvShipped.v'}, 'line': '',
+                     'why': 'coq/C04/GlvShipped.v is not the output of props/C04/gen_glv_shipped.py'}, 'stale'))
+    return out
+
+
 def xcheck_ok(case):
     # kernel cross-check on toy-curve cases only (vm_compute on 256..761-bit fields is slow)
     return case['args'][0][0] < 100 and len(case['args']) <= 11 and sum(len(a) for a in case['args']) < 200
